@@ -4,6 +4,7 @@
 package main
 
 import (
+	"encoding/json"
 	"errors"
 	"fmt"
 	"os"
@@ -288,8 +289,110 @@ func drivers(quick bool) []conc.Driver {
 	return ds
 }
 
+// ---- sequential promise laws (no scheduler: one goroutine, Wait only once settled)
+
+type seqCase struct {
+	Kind        string   `json:"kind"`
+	Recoverable bool     `json:"recoverable"`
+	Relay       bool     `json:"relay"`
+	Ops         []string `json:"ops"`
+}
+
+func seqLaw(c *enum.Ctx, k seqCase) {
+	p := concurrent.NewPromise(false, k.Recoverable, k.Relay)
+	winner := ""
+	c.Guard("promise-seq/panic", k, func() {
+		for i, o := range k.Ops {
+			switch o[0] {
+			case 'F':
+				err := p.Fulfill(int(o[1] - '0'))
+				if (err == nil) != (winner == "") {
+					c.Fail("promise-seq/fulfill-verdict", k, "step %d %s: err=%v although the promise was settled by %q", i, o, err, winner)
+					return
+				}
+				if err == nil {
+					winner = o
+				}
+			case 'X':
+				ok := p.Fail(int(o[1]-'0'), errOp)
+				if ok != (winner == "") {
+					c.Fail("promise-seq/fail-verdict", k, "step %d %s: ok=%v although the promise was settled by %q", i, o, ok, winner)
+					return
+				}
+				if ok {
+					winner = o
+				}
+			case 'W':
+				if winner == "" {
+					continue // would block: not part of a sequential history
+				}
+				r := <-p.Wait()
+				if r.Value != int(winner[1]-'0') {
+					c.Fail("promise-seq/value-changed", k, "step %d: Wait returned value %v, the promise was settled by %s", i, r.Value, winner)
+					return
+				}
+				if winner[0] == 'X' && r.Err != errOp {
+					c.Fail("promise-seq/failure-error", k, "step %d: Wait returned error %v, the promise was failed with %v", i, r.Err, errOp)
+					return
+				}
+				if winner[0] == 'F' && r.Err != nil && !k.Relay {
+					c.Fail("promise-seq/spurious-error", k, "step %d: Wait on a fulfilled non-relaying promise returned error %v", i, r.Err)
+					return
+				}
+			}
+		}
+	})
+}
+
+func seqLaws(c *enum.Ctx) {
+	ops := []string{"F1", "F2", "X3", "X4", "W"}
+	depth := 4
+	if !c.Quick {
+		depth = 6
+	}
+	n := 0
+	for _, rec := range []bool{false, true} {
+		for _, rel := range []bool{false, true} {
+			idx := make([]int, 0, depth)
+			var rec2 func()
+			rec2 = func() {
+				if len(idx) > 0 {
+					k := seqCase{Kind: "promise-seq", Recoverable: rec, Relay: rel}
+					for _, x := range idx {
+						k.Ops = append(k.Ops, ops[x])
+					}
+					c.Eval()
+					c.Nontrivial(enum.J(k))
+					seqLaw(c, k)
+					n++
+				}
+				if len(idx) == depth {
+					return
+				}
+				for x := range ops {
+					idx = append(idx, x)
+					rec2()
+					idx = idx[:len(idx)-1]
+				}
+			}
+			rec2()
+		}
+	}
+	c.Set("sequential_promise_histories", n)
+}
+
 func main() {
 	_ = os.Args
+	conc.Extra = seqLaws
+	conc.ExtraReplay = func(c *enum.Ctx, in json.RawMessage) bool {
+		var k seqCase
+		if json.Unmarshal(in, &k) != nil || k.Kind != "promise-seq" {
+			return false
+		}
+		fmt.Printf("sequential promise case %+v\n", k)
+		seqLaw(c, k)
+		return true
+	}
 	conc.Main("C19", "model_checking", drivers, func(c *enum.Ctx) {
 		c.Rule("every interleaving (happens-before exhaustive, no preemption bound unless stated per driver) of closed drivers over the real package concurrent at the granularity of channel/mutex/waitgroup/go operations; distinct = (driver, observable outcome) pairs; non-trivial = all (every driver has >= 2 threads)")
 		c.Assume("threads communicate only through operations the instrumenter sees (checked by the vector-clock race oracle on every schedule)", "GOMAXPROCS=4 so that up to 4 workers are created", "Operator implementations are pure")
